@@ -172,7 +172,7 @@ def run(rep, tier="quick", replay=None, evidence_dir=None):
     c02.run(sub, tier=tier, collect_only=True)
     n4 = 0
     for o in sub.obligations:
-        if o["rule"] in ("C02.R2", "C02.R3") and ("Block" in o["instance"] or "write_block" in o["instance"] or "next_" in o["instance"]):
+        if o["rule"] == "C02.R5" or o["rule"] in ("C02.R2", "C02.R3") and ("Block" in o["instance"] or "write_block" in o["instance"] or "next_" in o["instance"] or "block is flushed" in o["instance"] or "serialize_key" in o["instance"]):
             n4 += 1
             rep.ob("C16.R4", "[%s] %s" % (o["rule"], o["instance"]), o["ok"], o["detail"], o["loc"])
     rep.floor("C16.R4", "imported block-framing obligations", n4, 10)
